@@ -142,23 +142,37 @@ func opApply(op int, x, y uint64) uint64 {
 
 var opText = []string{" | ", " & ", " << ", " >> "}
 
+// flagOperand is one literal operand of a [flags] expression: "0x" and one
+// symbolic hex digit (either case) or, when wide, also "1" and one symbolic
+// decimal digit (10..19). (A symbolic first character of a number would fork
+// the tokenizer's successor table ten ways per operand.)
+func flagOperand(wide bool) ([]byte, uint64) {
+	if wide && vstub.Choose(0, 1) == 1 {
+		d, v := dec(1)
+		return app(nil, "1", d), 10 + v
+	}
+	h, v := hexDigits(1)
+	return app(nil, "0x", h), v
+}
+
 // C15Flags: [flags] members are the value of their expression. Expressions
 // are fully parenthesised (the property does not fix a precedence), operands
-// are symbolic digits and earlier members; every intermediate and final value
-// is assumed representable in the base type, shift counts are below 8.
+// are literals with a symbolic digit and earlier members; every intermediate
+// and final value is assumed representable in the base type, shift counts
+// are below 8.
 func C15Flags(bi, shape int) {
 	b := bases[bi]
 	if b.name == "byte" {
 		return // same base as uint8
 	}
-	x, xv := dec(1)
-	y, yv := dec(1)
 	op1 := vstub.Choose(0, 3)
 	op2 := vstub.Choose(0, 3)
+	x, xv := flagOperand(true)
+	y, yv := flagOperand(op1 < 2)
 	if op1 >= 2 {
 		vstub.Assume(yv < 8)
 	}
-	z, zv := dec(1)
+	z, zv := flagOperand(op2 < 2 && shape != 3)
 	if op2 >= 2 {
 		vstub.Assume(zv < 8)
 	}
@@ -166,6 +180,7 @@ func C15Flags(bi, shape int) {
 	var body []byte
 	var want []uint64
 	a := xv
+	fits(a)
 	body = app(body, " A = ", x, ";\n")
 	want = append(want, a)
 	switch shape {
@@ -194,9 +209,6 @@ func C15Flags(bi, shape int) {
 	case 3: // B = y; C = A op1 B; D = (C) op2 A
 		body = app(body, " B = ", y, ";\n")
 		want = append(want, yv)
-		if op1 >= 2 {
-			vstub.Assume(yv < 8)
-		}
 		c := opApply(op1, a, yv)
 		fits(c)
 		body = app(body, " C = A", opText[op1], "B;\n")
